@@ -271,3 +271,153 @@ func extractGoStmts(repo string) []site {
 	sort.SliceStable(out, func(i, j int) bool { return out[i].Key < out[j].Key })
 	return out
 }
+
+// Inventory of process-wide effects (C08: invoking an Action leaves no trace): calls that change the process (os.Setenv,
+// os.Unsetenv, os.Clearenv, os.Chdir) and assignments to package-level variables (also through an index or a field), keyed
+// by file and function, with a digest of the statement.  go/ast only: a name counts as a package-level variable when the
+// package declares one of that name and the function does not declare a local of the same name.
+func extractGlobalEffects(repo string) []site {
+	out := []site{}
+	files := libraryFiles(repo)
+	parsed := map[string]*ast.File{}
+	pkgVarsByDir := map[string]map[string]bool{}
+	for _, rel := range files {
+		f := parseFile(filepath.Join(repo, rel))
+		parsed[rel] = f
+		dir := filepath.Dir(rel)
+		if pkgVarsByDir[dir] == nil {
+			pkgVarsByDir[dir] = map[string]bool{}
+		}
+		for _, d := range f.Decls {
+			if gd, ok := d.(*ast.GenDecl); ok && gd.Tok.String() == "var" {
+				for _, sp := range gd.Specs {
+					if vs, ok := sp.(*ast.ValueSpec); ok {
+						for _, nm := range vs.Names {
+							if nm.Name != "_" {
+								pkgVarsByDir[dir][nm.Name] = true
+							}
+						}
+					}
+				}
+			}
+		}
+	}
+	baseIdent := func(e ast.Expr) *ast.Ident {
+		for {
+			switch t := e.(type) {
+			case *ast.Ident:
+				return t
+			case *ast.IndexExpr:
+				e = t.X
+			case *ast.SelectorExpr:
+				e = t.X
+			case *ast.StarExpr:
+				e = t.X
+			case *ast.ParenExpr:
+				e = t.X
+			default:
+				return nil
+			}
+		}
+	}
+	for _, rel := range files {
+		dir := filepath.Dir(rel)
+		for _, d := range parsed[rel].Decls {
+			fn, ok := d.(*ast.FuncDecl)
+			if !ok || fn.Body == nil {
+				continue
+			}
+			name := fn.Name.Name
+			if fn.Recv != nil && len(fn.Recv.List) > 0 {
+				name = recvName(fn.Recv.List[0].Type) + "." + name
+			}
+			locals := map[string]bool{}
+			addFields := func(fl *ast.FieldList) {
+				if fl == nil {
+					return
+				}
+				for _, f := range fl.List {
+					for _, nm := range f.Names {
+						locals[nm.Name] = true
+					}
+				}
+			}
+			addFields(fn.Recv)
+			addFields(fn.Type.Params)
+			addFields(fn.Type.Results)
+			ast.Inspect(fn.Body, func(n ast.Node) bool {
+				switch s := n.(type) {
+				case *ast.FuncLit:
+					addFields(s.Type.Params)
+				case *ast.AssignStmt:
+					if s.Tok.String() == ":=" {
+						for _, l := range s.Lhs {
+							if id, ok := l.(*ast.Ident); ok {
+								locals[id.Name] = true
+							}
+						}
+					}
+				case *ast.RangeStmt:
+					if s.Tok.String() == ":=" {
+						for _, e := range []ast.Expr{s.Key, s.Value} {
+							if id, ok := e.(*ast.Ident); ok {
+								locals[id.Name] = true
+							}
+						}
+					}
+				case *ast.DeclStmt:
+					if gd, ok := s.Decl.(*ast.GenDecl); ok {
+						for _, sp := range gd.Specs {
+							if vs, ok := sp.(*ast.ValueSpec); ok {
+								for _, nm := range vs.Names {
+									locals[nm.Name] = true
+								}
+							}
+						}
+					}
+				}
+				return true
+			})
+			add := func(what string, n ast.Node) {
+				h := fnv.New64a()
+				h.Write([]byte(exprText(n)))
+				out = append(out, site{Key: rel + " " + name + ": " + what, Hash: h.Sum64() >> 1})
+			}
+			ast.Inspect(fn.Body, func(n ast.Node) bool {
+				switch s := n.(type) {
+				case *ast.CallExpr:
+					if sel, ok := s.Fun.(*ast.SelectorExpr); ok {
+						if id, ok := sel.X.(*ast.Ident); ok && id.Name == "os" {
+							switch sel.Sel.Name {
+							case "Setenv", "Unsetenv", "Clearenv", "Chdir":
+								add("os."+sel.Sel.Name, s)
+							}
+						}
+					}
+					// delete(pkgMap, k)
+					if id, ok := s.Fun.(*ast.Ident); ok && id.Name == "delete" && len(s.Args) > 0 {
+						if b := baseIdent(s.Args[0]); b != nil && pkgVarsByDir[dir][b.Name] && !locals[b.Name] {
+							add("deletes from "+b.Name, s)
+						}
+					}
+				case *ast.AssignStmt:
+					if s.Tok.String() == ":=" {
+						return true
+					}
+					for _, l := range s.Lhs {
+						if b := baseIdent(l); b != nil && pkgVarsByDir[dir][b.Name] && !locals[b.Name] {
+							add("writes "+exprText(l), s)
+						}
+					}
+				case *ast.IncDecStmt:
+					if b := baseIdent(s.X); b != nil && pkgVarsByDir[dir][b.Name] && !locals[b.Name] {
+						add("writes "+exprText(s.X), s)
+					}
+				}
+				return true
+			})
+		}
+	}
+	sort.SliceStable(out, func(i, j int) bool { return out[i].Key < out[j].Key })
+	return out
+}
